@@ -51,6 +51,7 @@ class Cfg(object):
         self.due = False
         self.per_task_rules = True
         self.work_pool = None  # override of WORK_POOL (dyadic mode)
+        self.servable = 0  # k in 4 specs get a worker (and workplace/facility) that can serve every task
         self.onesided = 0  # 1 in n teams/workplaces has some links on its own side only (0 = never)
         self.abs_p = 3  # 1 in abs_p workers (abs_p+1 facilities) has an own absence list
         self.abs_size = 4  # max length of a per-resource absence list
@@ -286,6 +287,7 @@ def model_spec(draw, cfg):
         if cfg.worker_abs and _one_in(draw, cfg.abs_p + 1):
             f["abs"] = draw(abs_list(cfg.abs_max, cfg.abs_size))
 
+    servable = bool(cfg.servable) and draw(st.integers(0, 3)) < cfg.servable
     spec = {
         "tasks": tasks,
         "deps": deps,
@@ -301,6 +303,8 @@ def model_spec(draw, cfg):
         spec["float_mode"] = True
     if tie:
         spec["tie_rich"] = True
+    if servable:
+        make_servable(spec)
     return spec
 
 
@@ -322,8 +326,12 @@ def succs(spec):
     return out
 
 
-def fs_reach(spec):
-    """reach[a] = set of tasks reachable from a through FS edges only."""
+def fs_reach(spec, strict=False):
+    """reach[a] = set of tasks reachable from a through FS edges only.
+
+    strict: paths may not pass through a task that is complete by default progress (such a task is FINISHED
+    from the start and does not hold its successors back).
+    """
     n = len(spec["tasks"])
     adj = {i: set() for i in range(n)}
     for a, b, k in spec.get("deps", []):
@@ -333,7 +341,8 @@ def fs_reach(spec):
     for i in reversed(range(n)):  # pred < succ, so successors have larger indices
         for j in adj[i]:
             reach[i].add(j)
-            reach[i] |= reach[j]
+            if not (strict and spec["tasks"][j].get("prog", 0.0) >= 1.0 - 1e-10):
+                reach[i] |= reach[j]
     return reach
 
 
@@ -372,7 +381,7 @@ def assembly_form(tasks, deps, comps):
     for i, t in enumerate(tasks):
         if t.get("comp") is not None:
             by_comp.setdefault(t["comp"], []).append(i)
-    reach = fs_reach(spec)
+    reach = fs_reach(spec, strict=True)
     for c, cs in enumerate(comps):
         if cs["parent"] is None:
             continue
@@ -380,7 +389,7 @@ def assembly_form(tasks, deps, comps):
             for b in by_comp.get(cs["parent"], []):
                 if a < b and b not in reach[a]:
                     deps.append([a, b, 0])
-                    reach = fs_reach(spec)
+                    reach = fs_reach(spec, strict=True)
 
 
 def single_task_components(spec):
@@ -398,4 +407,36 @@ def single_task_components(spec):
             t["nf"] = False
             t["fixf"] = None
     spec["comps"] = comps
+    return spec
+
+
+def make_servable(spec):
+    """Repair step used by the differential properties: add one worker who can do every task (and, if some task
+    needs a facility, one big workplace with one facility that can do everything), so that most generated models
+    run to FINISHED_SUCCESS instead of idling until max_time. Contention is kept: it is still one worker."""
+    n = len(spec["tasks"])
+    if not spec["teams"]:
+        spec["teams"].append({"targets": []})
+    t0 = spec["teams"][0]
+    t0["targets"] = sorted(set(t0["targets"]) | set(range(n)))
+    if any(t["nf"] for t in spec["tasks"]):
+        total = sum(c["space"] for c in spec["comps"]) + 1.0
+        spec["wps"].append({"cap": total, "targets": list(range(n)), "inputs": []})
+        spec["facs"].append({"wp": len(spec["wps"]) - 1, "cost": 1.0, "solo": False, "skills": {str(i): 1.0 for i in range(n)}, "abs": []})
+    spec["workers"].append(
+        {
+            "team": 0,
+            "cost": 1.0,
+            "solo": False,
+            "skills": {str(i): 1.0 for i in range(n)},
+            "fsk": {str(k): 1.0 for k in range(len(spec["facs"]))},
+            "abs": [],
+            "mw": None,
+        }
+    )
+    for t in spec["tasks"]:
+        if t.get("fixw") is not None:
+            t["fixw"] = list(t["fixw"]) + [len(spec["workers"]) - 1]
+        if t.get("fixf") is not None and t["nf"]:
+            t["fixf"] = list(t["fixf"]) + [len(spec["facs"]) - 1]
     return spec
